@@ -1,2 +1,14 @@
-#!/bin/sh
-exit 0
+#!/bin/bash
+# Run once after a fresh restore, offline: build the instrumenter and warm the
+# Go build cache (go1.26.8 std, normal and -race) with one throw-away workspace.
+set -u
+export GOFLAGS=-mod=mod GOPROXY=off GOSUMDB=off GOTOOLCHAIN=local GOWORK=off
+cd /verif/ws || exit 2
+mkdir -p /verif/bin /verif/evidence /verif/replays
+go1.26.8 build -o /verif/bin/instrument ./tools/instrument || exit 2
+go1.26.8 test ./ref ./simrt >/dev/null 2>&1 || { echo "reference model self-tests failed" >&2; go1.26.8 test ./ref ./simrt; exit 2; }
+S=$(mktemp -d /tmp/gmv.setup.XXXXXX) || exit 2
+/verif/mkws.sh "$S" race
+rc=$?
+rm -rf "$S"
+exit $rc
